@@ -12,7 +12,8 @@ from .engine import Engine, Ctx, Frame, Oblig, HRef
 class Case:
     """One specification case: when(c) -> guard over the pre-state; kind return|raise; post(c) -> {name: Bool}."""
     def __init__(self, name, when=None, kind='return', exc=None, post=None, result=None, tags=None, exc_fields=None,
-                 update=None, group=None, result_fresh=None):
+                 update=None, group=None, result_fresh=None, residual=None):
+        self.residual = residual           # c -> {clause name: weaker Bool}: what must still hold of a clause listed as a known finding
         self.result_fresh = result_fresh   # call sites: builds a fresh result value that `post` then constrains
         self.group = group        # cases of one group with overlapping guards are alternatives (nondeterminism of
         #                           application code): a path must satisfy at least one of them
@@ -268,6 +269,9 @@ def find_target(target):
     return found
 
 
+KNOWN_OPEN = set()      # obligation names listed as open known findings: only a short attempt is made on them
+
+
 def verify(contract, target, make_engine, seed=0, timeout_ms=10000, both=False, want_models=True):
     """Verify the body of `target` against `contract`.  make_engine() -> Engine wired with registry and externals."""
     t0 = time.time()
@@ -426,6 +430,9 @@ def _verify_body(eng, contract, target, mod, cname, node, res, seed, timeout_ms,
                         clauses['result'] = eng.equal(c, o.val, exp)
                 post = case.post(cc) if case.post else {}
                 clauses.update(post)
+                if case.residual is not None:
+                    for rn, rt in (case.residual(cc) or {}).items():
+                        clauses[rn + '#residual'] = rt
                 alts.append((case, g, clauses))
             hyps0 = list(c.pc)
             fr = []
@@ -461,10 +468,14 @@ def _verify_body(eng, contract, target, mod, cname, node, res, seed, timeout_ms,
                             add('%s/canary.%s' % (tname, mn), hyps0 + [g], mt, 'canary', expect='refuted-somewhere')
     # ---- discharge: obligations that share their hypotheses are first tried as one conjunction
     pre_proved = set()
+    bundle_failures = 0
     for bkey, members in bundles.items():
         if len(members) < 2:
             continue
+        if bundle_failures >= 3:
+            break
         hyps = agg[members[0][0]]['items'][members[0][1]][0]
+        members = [(n, i) for n, i in members if n not in KNOWN_OPEN]
         goals = [agg[n]['items'][i][1] for n, i in members]
         goals = [g for g in goals if not z3.is_true(g)]
         if not goals:
@@ -473,9 +484,20 @@ def _verify_body(eng, contract, target, mod, cname, node, res, seed, timeout_ms,
         if r['status'] == 'proved':
             for n, i in members:
                 pre_proved.add((n, i))
+        else:
+            bundle_failures += 1
     failed = 0
     for name, item in agg.items():
         t1 = time.time()
+        if failed >= 3 and item['expect'] == 'proved':
+            # the function already fails three obligations: the rest is not examined (reported as skipped)
+            if all(z3.is_true(g) or (name, i_) in pre_proved for i_, (h_, g) in enumerate(item['items'])):
+                st_ = 'proved'
+            else:
+                st_ = 'skipped'
+            res.obligations.append({'name': name, 'status': st_, 'kind': item['kind'], 'backend': 'z3' if st_ == 'proved' else 'none',
+                                    'time_s': 0, 'paths': len(item['items']), 'tags': list(item['tags'])})
+            continue
         statuses = []
         backend = set()
         model_txt = None
@@ -487,7 +509,7 @@ def _verify_body(eng, contract, target, mod, cname, node, res, seed, timeout_ms,
             if item['expect'] == 'refuted-somewhere' and 'refuted' in statuses:
                 break
             if item['expect'] == 'proved':
-                r = smt.prove(hyps, goal, timeout_ms=timeout_ms, seed=seed, both=both, quick_only=failed >= 2)
+                r = smt.prove(hyps, goal, timeout_ms=timeout_ms, seed=seed, both=both, quick_only=(failed >= 2 or name in KNOWN_OPEN))
             else:
                 r = smt.refute_qf(hyps, goal, seed=seed)
             statuses.append(r['status'])
@@ -506,7 +528,7 @@ def _verify_body(eng, contract, target, mod, cname, node, res, seed, timeout_ms,
             st = 'proved' if all(s == 'proved' for s in statuses) else ('refuted' if 'refuted' in statuses else 'undecided')
         else:
             st = 'proved' if 'refuted' in statuses else ('vacuous' if all(s == 'proved' for s in statuses) else 'undecided')
-        if st != 'proved' and item['expect'] == 'proved':
+        if st != 'proved' and item['expect'] == 'proved' and name not in KNOWN_OPEN:
             failed += 1
         ob = {'name': name, 'status': st, 'kind': item['kind'], 'backend': '+'.join(sorted(backend)) or 'syntactic',
               'time_s': round(time.time() - t1, 4), 'paths': len(item['items']), 'tags': list(item['tags'])}
